@@ -110,9 +110,23 @@ def nesting_texts(depth):
     return out
 
 
-def hygiene_texts():
-    """Quantifiers that re-bind, shadow, leak or never use a variable, at every depth and below every
-    operator, through every entry point (sanity errors are documented; anything else is not)."""
+def ownalias_texts():
+    """An event that refers to its own message through its alias, in every kind of slot (the constructor rewrites
+    these references, rebuilding every node above them), well-typed and ill-typed, in every event position."""
+    conds = ['x in {@M.lo, @M.hi}', 'forall i in {@M.lo, @M.hi}: @i > 0', 'x in [@M.lo to @M.hi]', 'x in ![0 to len(@M.xs)]!', 'xs[@M.i] > 0', '@M.xs[@M.i] > 0', 'abs(@M.v) > 0', 'max({@M.a, 1}) > 0',
+             'not @M.p', '@M.p implies @M.q', '-@M.x < 0', 'roll(@M) > 0', 'exists i in @M.xs: @i = @M.k', 'ms[@M.i].g = 1', 'sa = str(@M.x)', '@M.x + @M.y * 2 > @M.z ** 2', 'x in {@M, 1}', 'not @M', '@M.x and @M.x > 0',
+             'forall i in @M.xs: (exists j in [0 to @M.n]: @i > @j)', 'x in {1, 2, @M.k} and y in {@M.k}', 'sum({@M.a, @M.b}) > prod([1 to @M.c])', '@N.x > 0', '@M.x > @Z.x']
+    tmpls = ['globally: some a as M {%s}', 'after a as M {%s}: no b', 'until (b or a as M {%s}): some c', 'globally: b causes a as M {%s} within 1 s', 'globally: a as M {%s} requires b', 'after s as N: a as M {%s} forbids (b or c as M2 {@M2.k > @M.k})']
+    out = []
+    for c in conds:
+        for t in tmpls:
+            out.append(('prop', t % c))
+        out.append(('spec', '# id: p1\n' + tmpls[0] % c + '\n# id: p2\n' + tmpls[1] % c))
+    return out
+
+
+def hygiene_bodies():
+    """Quantifiers that re-bind, shadow, leak or never use a variable, at every depth and below every operator."""
     inner = ['exists x in ys: @x > 0', 'forall x in ys: @x > @x', 'exists x in [0 to 3]: xs[@x] > 0', 'exists y in ys: @y > 0', 'exists y in ys: @y > @x', 'exists y in ys: p']
     wraps = ['%s', 'b and %s', '%s or b', 'not %s', 'b implies %s', '@x > 0 and %s', '(%s) and @x > 0', 'not (b and not %s)', 'b and (q or %s)', '(exists z in zs: @z > 0) and %s',
              'exists y in [0 to int(%s)]: @y > 0', 'exists y in {int(%s), 1}: @y > @x', 'xs[int(%s)] > 0', 'xs[int(%s)] > @x', 'exists z in zs: (@z > 0 and %s)', 'exists z in zs: (@z > @x and %s)']
@@ -123,8 +137,13 @@ def hygiene_texts():
             for i in inner:
                 bodies.append(o % (w % ('(' + i + ')')))
     bodies += ['forall x in xs: p', 'forall x in @x: @x > 0', 'forall x in xs[@x]: @x > 0', 'forall x in [0 to @x]: @x > 0', 'forall x in {@x}: @x > 0', '@x > 0', 'forall x in xs: @y > 0', 'forall x in xs: (@x > 0 and @y > 0)']
+    return bodies
+
+
+def hygiene_texts():
+    """The hygiene bodies through every entry point (sanity errors are documented; anything else is not)."""
     out = []
-    for body in bodies:
+    for body in hygiene_bodies():
         out.append(('expr', body))
         out.append(('cond', body))
         out.append(('pred', '{ ' + body + ' }'))
@@ -173,6 +192,7 @@ def plan(tier):
             units.append(('chars', tier, kind, c))
     units.append(('nesting', tier))
     units.append(('hygiene', tier))
+    units.append(('ownalias', tier))
     for kind in HISTORY_POOL:
         for first in range(len(HISTORY_POOL[kind])):
             units.append(('history', tier, kind, first))
@@ -238,6 +258,11 @@ def run(unit):
             check_text(kind, text, r, len(text))
         r.count('states', r.counters['evaluations'])
         r.sample({'hygiene': hygiene_texts()[7][1]})
+    elif what == 'ownalias':
+        for kind, text in ownalias_texts():
+            check_text(kind, text, r, len(text))
+        r.count('states', r.counters['evaluations'])
+        r.sample({'ownalias': ownalias_texts()[0][1]})
     elif what == 'history':
         _, _, kind, first = unit
         pool = HISTORY_POOL[kind]
@@ -293,7 +318,7 @@ def replay(w):
 def describe(tier):
     b = bounds(tier)
     return {
-        'rule': f"(a) all token sequences of length <= {b['seq_len_full']} over a {len(ALPHABET)}-token alphabet and <= {b['seq_len_core']} over a core alphabet, 5 entry points; (b) all single{' and double' if b['double_edits'] else ''} token edits of a {sum(len(v) for v in c01.CORPUS.values())}-text corpus; (c) all strings of length <= {b['chars_len']} over {len(AWKWARD)} awkward characters and every single insertion of each at every position of the corpus; (d) 20 nesting shapes at depths 1..{b['depth']}; (e) every call history of length <= {b['history_len']} over a 18/19-text pool on one parser object per entry point (5 entry points), last outcome compared with a fresh parser. (f) quantifier hygiene: 4 outer quantifiers x 16 wrappers (every connective, domains through int(...), indices, a second quantifier) x 6 inner quantifiers that re-bind / shadow / leak / never use a variable, through 7 entry-point shapes. A transition = one parser call; states (e) = distinct (last two calls, outcome) triples.",
+        'rule': f"(a) all token sequences of length <= {b['seq_len_full']} over a {len(ALPHABET)}-token alphabet and <= {b['seq_len_core']} over a core alphabet, 5 entry points; (b) all single{' and double' if b['double_edits'] else ''} token edits of a {sum(len(v) for v in c01.CORPUS.values())}-text corpus; (c) all strings of length <= {b['chars_len']} over {len(AWKWARD)} awkward characters and every single insertion of each at every position of the corpus; (d) 20 nesting shapes at depths 1..{b['depth']}; (e) every call history of length <= {b['history_len']} over a 18/19-text pool on one parser object per entry point (5 entry points), last outcome compared with a fresh parser. (g) 24 predicates that refer to the event's own alias in every kind of slot x 6 event positions + files. (f) quantifier hygiene: 4 outer quantifiers x 16 wrappers (every connective, domains through int(...), indices, a second quantifier) x 6 inner quantifiers that re-bind / shadow / leak / never use a variable, through 7 entry-point shapes. A transition = one parser call; states (e) = distinct (last two calls, outcome) triples.",
         'bounds': b,
         'exhaustive': True,
         'assumptions': ['documented failure classes: HplSyntaxError, HplSanityError, TypeError, ValueError for an unknown function name; watchdog of 10 s per call for termination'],
